@@ -666,18 +666,24 @@ class AnyObj:
     NAMES = ["None", "bool", "int", "float", "str", "tuple", "dict", "list",
              "own-rating", "foreign-rating", "other-object"]
 
-    def __init__(self, name, ctx=None, own_cls=None, allowed=None):
+    def __init__(self, name, ctx=None, own_cls=None, allowed=None, tag=None, length=None, value=None, elem=None,
+                 assume_domain=True):
+        """tag / length / value may be given as z3 terms (e.g. applications of an
+        uninterpreted function to a symbolic index); elem(i) builds the i-th
+        element of a symbolic container (used by the loop cutter)."""
         ctx = ctx or cur()
         self.name = name
-        self.tag = z3.Int(f"tag!{name}")
-        self.length = z3.Int(f"len!{name}")
-        self.value = z3.Real(f"val!{name}")
+        self.tag = tag if tag is not None else z3.Int(f"tag!{name}")
+        self.length = length if length is not None else z3.Int(f"len!{name}")
+        self.value = value if value is not None else z3.Real(f"val!{name}")
         self.own_cls = own_cls
-        dom = z3.And(self.tag >= 0, self.tag <= 10)
-        if allowed is not None:
-            dom = z3.Or([self.tag == a for a in allowed])
-        ctx.assume(dom)
-        ctx.assume(self.length >= 0)
+        self.elem = elem
+        if assume_domain:
+            dom = z3.And(self.tag >= 0, self.tag <= 10)
+            if allowed is not None:
+                dom = z3.Or([self.tag == a for a in allowed])
+            ctx.assume(dom)
+            ctx.assume(self.length >= 0)
         self.__dict__["_ready"] = True
 
     # which classes does a tag satisfy?
@@ -736,6 +742,19 @@ class AnyObj:
 
     def __iter__(self):
         raise EngineError("iteration over a symbolic container (needs a loop cut)")
+
+    def __getitem__(self, i):
+        if self.elem is None:
+            raise EngineError("subscript of a symbolic object without an element function")
+        c = cur()
+        it = SymNum.lift(i)
+        if it is None:
+            raise TypeError("indices must be integers")
+        idx = z3.ToInt(it.t) if not z3.is_int(it.t) else it.t
+        idx = z3.simplify(idx)
+        if not c.decide(z3.And(idx >= 0, idx < self.length)):
+            raise IndexError("index out of range")
+        return self.elem(idx)
 
     def float_(self):
         raise EngineError("float() of AnyObj")
